@@ -214,6 +214,27 @@ func c14Units(ctx *core.Ctx) []core.Unit {
 			r.Traces += int64(st.Complete)
 		}
 	}})
+	us = append(us, core.Unit{Name: "AppendScalar over the edge-scalar alphabet (incl. values with a tiny Montgomery representation)", Run: func(ctx *core.Ctx, r *core.Result) {
+		needRef()
+		ed := sEdge(ctx.Seed, ctx.Thorough())
+		for i, sv := range ed {
+			e := frFromBig(sv)
+			ti := common.NewTranscript("vt")
+			tr := ref.NewTranscript("vt")
+			ti.AppendScalar(&e, []byte("s"))
+			tr.AppendScalar(sv, "s")
+			// a second scalar, so that a framing that merges or shortens the first one shifts the stream
+			o := frFromBig(ed[(i*7+1)%len(ed)])
+			ti.AppendScalar(&o, []byte("t"))
+			tr.AppendScalar(ed[(i*7+1)%len(ed)], "t")
+			got, want := frToBig(ti.ChallengeScalar([]byte("c"))), tr.Challenge("c")
+			r.Evals++
+			r.Nontrivial++
+			if got.Cmp(want) != 0 {
+				vio(r, "c14.challenge", "common.Transcript.AppendScalar / ChallengeScalar", fmt.Sprintf("AppendScalar(%s, s); AppendScalar(%s, t); ChallengeScalar(c)", sv.Text(16), ed[(i*7+1)%len(ed)].Text(16)), want.Text(16), got.Text(16))
+			}
+		}
+	}})
 	us = append(us, core.Unit{Name: "long chains: pending sizes 0..5000, consecutive challenges, many small appends", Run: func(ctx *core.Ctx, r *core.Result) {
 		needRef()
 		states := map[string]bool{}
